@@ -160,6 +160,16 @@ func selectAcquire(b *ssa.BasicBlock) (string, bool) {
 
 // LockAnalysis computes the must-hold lockset at the entry of every block of fn.
 func (p *Program) LockAnalysis(fn *ssa.Function, entry LockSet) *LockInfo {
+	return p.lockAnalysis(fn, entry, false)
+}
+
+// MayLockAnalysis computes the may-hold lockset (held on at least one path) at the entry of every block of fn: the
+// question "can this call run while the lock is held", where the must-hold analysis answers "is it always held".
+func (p *Program) MayLockAnalysis(fn *ssa.Function, entry LockSet) *LockInfo {
+	return p.lockAnalysis(fn, entry, true)
+}
+
+func (p *Program) lockAnalysis(fn *ssa.Function, entry LockSet, may bool) *LockInfo {
 	li := &LockInfo{Fn: fn, In: map[*ssa.BasicBlock]LockSet{}, Entry: entry}
 	if len(fn.Blocks) == 0 {
 		return li
@@ -194,6 +204,10 @@ func (p *Program) LockAnalysis(fn *ssa.Function, entry LockSet) *LockInfo {
 				if first {
 					ns = po.clone()
 					first = false
+				} else if may {
+					for k := range po {
+						ns[k] = true
+					}
 				} else {
 					ns = intersect(ns, po)
 				}
